@@ -153,6 +153,24 @@ def cases_for(tier, s):
             R.append({"kind": "pair", "a": base, "b": dict(base, options={"epsilon": 1e-10}), "what": "option epsilon", "expect": "differ"})
             R.append({"kind": "pair", "a": base, "b": dict(base, compile_args=["-O3"]), "what": "compiler flags", "expect": "differ"})
             R.append({"kind": "pair", "a": base, "b": dict(base, cffi_debug=True), "what": "cffi_debug", "expect": "differ"})
+            # more single-feature differences (the digest of the generated kernels decides whether they must separate)
+            R.append({"kind": "pair", "a": base, "b": nm(cell, knd, family="DG"), "what": "element family"})
+            R.append({"kind": "pair", "a": nm(cell, knd, degree=3, variant="gll_warped"), "b": nm(cell, knd, degree=3, variant="equispaced"), "what": "lagrange variant"})
+            R.append({"kind": "pair", "a": nm(cell, knd, const_shape=[2, 3], const_index=1), "b": nm(cell, knd, const_shape=[3, 2], const_index=1), "what": "constant shape"})
+            R.append({"kind": "pair", "a": nm(cell, knd, const_shape=[2, 3], const_index=1), "b": nm(cell, knd, const_shape=[2, 3], const_index=3), "what": "constant entry"})
+            R.append({"kind": "pair", "a": base, "b": {"recipe": dict(base["recipe"], cdeg=2)}, "what": "geometry degree"})
+            if cell in ("interval", "triangle"):
+                R.append({"kind": "pair", "a": base, "b": {"recipe": dict(base["recipe"], gdim=3)}, "what": "geometric dimension"})
+            if knd == "form":
+                R.append({"kind": "pair", "a": nm(cell, knd, qdeg=2), "b": nm(cell, knd, qdeg=3), "what": "quadrature degree"})
+                R.append({"kind": "pair", "a": nm(cell, knd, qdeg=1), "b": nm(cell, knd, qdeg=1, scheme="vertex"), "what": "quadrature scheme"})
+                R.append({"kind": "pair", "a": nm(cell, knd, sid=1), "b": nm(cell, knd, sid=2), "what": "subdomain id"})
+                R.append({"kind": "pair", "a": nm(cell, knd, sid=1), "b": nm(cell, knd, sid=[1, 2]), "what": "subdomain id tuple"})
+                if cell != "interval":
+                    R.append({"kind": "pair", "a": nm(cell, knd, itype="exterior_facet"), "b": nm(cell, knd, itype="interior_facet"), "what": "integral type"})
+                    R.append({"kind": "pair", "a": nm(cell, knd, itype="interior_facet"), "b": nm(cell, knd, itype="interior_facet", conj_side=True), "what": "restriction of the test function"})
+            else:
+                R.append({"kind": "pair", "a": base, "b": nm(cell, knd, npts=4), "what": "number of points"})
         e = nm(cell, "expr")
         for how, mech in (("eps10", "points-repr-truncation"), ("eps6", None), ("f32", None), ("order", None), ("fewer", None)):
             R.append({"kind": "pair", "a": e, "b": dict(e, points=how), "what": "points " + how, "mech": mech or "different-kernels-share-module-name"})
